@@ -204,20 +204,20 @@ theorem rowsFor_face : rowsFor .face =
     [⟨"Face", [.face], [many "points" .pt 4 (some 4), many "edges" .edgeData 4 (some 4)]⟩] := by
   rfl
 
-theorem admits_face (c : VEnt) (h : Cls.admits .face c = true) : ∃ a ch, c = .node .face a ch := by
+theorem accepts_face (c : VEnt) (h : Cls.accepts .face c = true) : ∃ a ch, c = .node .face a ch := by
   cases c with
   | node k a ch =>
-      simp only [Cls.admits, beq_iff_eq] at h
+      simp only [Cls.accepts, beq_iff_eq] at h
       exact ⟨a, ch, by rw [h]⟩
-  | _ => simp [Cls.admits] at h
+  | _ => simp [Cls.accepts] at h
 
-theorem admits_pt (c : VEnt) (h : Cls.admits .pt c = true) : ∃ v, c = .pt v := by
+theorem accepts_pt (c : VEnt) (h : Cls.accepts .pt c = true) : ∃ v, c = .pt v := by
   cases c with
   | pt v => exact ⟨v, rfl⟩
-  | _ => simp [Cls.admits] at h
+  | _ => simp [Cls.accepts] at h
 
 theorem matchSlots_one (n : String) (c : Cls) (ss : List Slot) (e : VEnt) (rest : List VEnt) :
-    matchSlots (one n c :: ss) (e :: rest) = (c.admits e && matchSlots ss rest) := by
+    matchSlots (one n c :: ss) (e :: rest) = (c.accepts e && matchSlots ss rest) := by
   simp [matchSlots, one]
 
 theorem matchSlots_one_nil (n : String) (c : Cls) (ss : List Slot) : matchSlots (one n c :: ss) [] = false := by
@@ -225,7 +225,7 @@ theorem matchSlots_one_nil (n : String) (c : Cls) (ss : List Slot) : matchSlots 
 
 theorem matchSlots_many_lo (n : String) (c : Cls) (lo : Nat) (hi : Option Nat) (ss : List Slot) (es : List VEnt)
     (h : matchSlots (many n c lo hi :: ss) es = true) :
-    lo ≤ (es.takeWhile c.admits).length ∧ matchSlots ss (es.dropWhile c.admits) = true := by
+    lo ≤ (es.takeWhile c.accepts).length ∧ matchSlots ss (es.dropWhile c.accepts) = true := by
   simp only [matchSlots, many, if_true, Bool.and_eq_true, decide_eq_true_eq] at h
   exact ⟨of_decide_eq_true h.1.1, h.2⟩
 
@@ -238,8 +238,8 @@ theorem wfNode_op (ch : List VEnt) (h : wfNode .op ch = true) :
   | b :: tp :: sides, h =>
       rw [matchSlots_one, matchSlots_one] at h
       simp only [Bool.and_eq_true] at h
-      obtain ⟨ab, cb, hb⟩ := admits_face b h.1
-      obtain ⟨at_, ct, ht⟩ := admits_face tp h.2.1
+      obtain ⟨ab, cb, hb⟩ := accepts_face b h.1
+      obtain ⟨at_, ct, ht⟩ := accepts_face tp h.2.1
       exact ⟨ab, cb, at_, ct, sides, by rw [hb, ht]⟩
   | [_], h =>
       rw [matchSlots_one, matchSlots_one_nil] at h
@@ -256,8 +256,8 @@ theorem wfNode_face (ch : List VEnt) (h : wfNode .face ch = true) : ∃ v rest, 
   match ch, h4 with
   | [], h4 => simp at h4
   | c :: rest, h4 =>
-      by_cases hc : Cls.admits .pt c = true
-      · obtain ⟨v, hv⟩ := admits_pt c hc
+      by_cases hc : Cls.accepts .pt c = true
+      · obtain ⟨v, hv⟩ := accepts_pt c hc
         exact ⟨v, rest, by rw [hv]⟩
       · simp [List.takeWhile_cons, hc] at h4
 
@@ -358,19 +358,19 @@ theorem rowsFor_shape : rowsFor .shape = [⟨"Shape", [.shape], [many "operation
 theorem rowsFor_stack : rowsFor .stack = [⟨"Stack", [.stack], [many "shapes" .shape 1]⟩] := by rfl
 theorem rowsFor_asm : rowsFor .asm = [⟨"Assembly", [.asm], [many "shapes" .shape 1]⟩] := by rfl
 
-theorem admits_op (c : VEnt) (h : Cls.admits .op c = true) : kindOfV c = some .op := by
+theorem accepts_op (c : VEnt) (h : Cls.accepts .op c = true) : kindOfV c = some .op := by
   cases c with
   | node k a ch =>
-      simp only [Cls.admits, beq_iff_eq] at h
+      simp only [Cls.accepts, beq_iff_eq] at h
       simp [kindOfV, h]
-  | _ => simp [Cls.admits] at h
+  | _ => simp [Cls.accepts] at h
 
-theorem admits_shape (c : VEnt) (h : Cls.admits .shape c = true) : kindOfV c ≠ some .op := by
+theorem accepts_shape (c : VEnt) (h : Cls.accepts .shape c = true) : kindOfV c ≠ some .op := by
   cases c with
   | node k a ch =>
-      simp only [Cls.admits, Bool.or_eq_true, beq_iff_eq] at h
+      simp only [Cls.accepts, Bool.or_eq_true, beq_iff_eq] at h
       rcases h with h | h <;> simp [kindOfV, h]
-  | _ => simp [Cls.admits] at h
+  | _ => simp [Cls.accepts] at h
 
 theorem dropWhile_nil_all {α : Type} (p : α → Bool) : ∀ l : List α, l.dropWhile p = [] →
     (∀ x ∈ l, p x = true) ∧ (l.takeWhile p).length = l.length
@@ -386,9 +386,9 @@ theorem dropWhile_nil_all {α : Type} (p : α → Bool) : ∀ l : List α, l.dro
         · exact h1 y hy
       · simp [List.dropWhile_cons, hx] at h
 
-/-- a starred slot that ends the list: every part is admitted, and there are at least `lo` of them -/
+/-- a starred slot that ends the list: every part is accepted, and there are at least `lo` of them -/
 theorem matchSlots_many_last (n : String) (c : Cls) (lo : Nat) (es : List VEnt)
-    (h : matchSlots [many n c lo none] es = true) : (∀ e ∈ es, c.admits e = true) ∧ lo ≤ es.length := by
+    (h : matchSlots [many n c lo none] es = true) : (∀ e ∈ es, c.accepts e = true) ∧ lo ≤ es.length := by
   obtain ⟨h1, h2⟩ := matchSlots_many_lo _ _ _ _ _ _ h
   simp only [matchSlots, List.isEmpty_iff] at h2
   obtain ⟨h3, h4⟩ := dropWhile_nil_all _ _ h2
@@ -399,17 +399,17 @@ theorem wfNode_shape (ch : List VEnt) (h : wfNode .shape ch = true) :
   simp only [wfNode, rowsFor_shape, List.any_cons, List.any_nil, Bool.or_false] at h
   have h : matchSlots [many "operations" .op 1 none] ch = true := by simpa using h
   obtain ⟨h1, h2⟩ := matchSlots_many_last _ _ _ _ h
-  exact ⟨fun e he => admits_op e (h1 e he), by intro hn; rw [hn] at h2; simp at h2⟩
+  exact ⟨fun e he => accepts_op e (h1 e he), by intro hn; rw [hn] at h2; simp at h2⟩
 
 theorem wfNode_stack (ch : List VEnt) (h : wfNode .stack ch = true) :
-    (∀ e ∈ ch, Cls.admits .shape e = true) ∧ ch ≠ [] := by
+    (∀ e ∈ ch, Cls.accepts .shape e = true) ∧ ch ≠ [] := by
   simp only [wfNode, rowsFor_stack, List.any_cons, List.any_nil, Bool.or_false] at h
   have h : matchSlots [many "shapes" .shape 1 none] ch = true := by simpa using h
   obtain ⟨h1, h2⟩ := matchSlots_many_last _ _ _ _ h
   exact ⟨h1, by intro hn; rw [hn] at h2; simp at h2⟩
 
 theorem wfNode_asm (ch : List VEnt) (h : wfNode .asm ch = true) :
-    (∀ e ∈ ch, Cls.admits .shape e = true) ∧ ch ≠ [] := by
+    (∀ e ∈ ch, Cls.accepts .shape e = true) ∧ ch ≠ [] := by
   simp only [wfNode, rowsFor_asm, List.any_cons, List.any_nil, Bool.or_false] at h
   have h : matchSlots [many "shapes" .shape 1 none] ch = true := by simpa using h
   obtain ⟨h1, h2⟩ := matchSlots_many_last _ _ _ _ h
@@ -430,12 +430,12 @@ theorem rowsFor_sphere : rowsFor .sphere = [⟨"EighthSphere", [.sphere],
     [many "operations" .op 1, one "_center_point" .pt, one "_radius_point" .pt]⟩] := by rfl
 
 /-- a well-formed shape (or sphere shape) has at least one operation -/
-theorem shape_has_op (c : VEnt) (hsh : Cls.admits .shape c = true) (hwf : wfV c = true) : opsOfV c ≠ [] := by
+theorem shape_has_op (c : VEnt) (hsh : Cls.accepts .shape c = true) (hwf : wfV c = true) : opsOfV c ≠ [] := by
   cases c with
   | node k a ch =>
       simp only [wfV, Bool.and_eq_true] at hwf
-      simp only [Cls.admits, Bool.or_eq_true, beq_iff_eq] at hsh
-      have hfirst : ∃ x xs, ch = x :: xs ∧ Cls.admits .op x = true := by
+      simp only [Cls.accepts, Bool.or_eq_true, beq_iff_eq] at hsh
+      have hfirst : ∃ x xs, ch = x :: xs ∧ Cls.accepts .op x = true := by
         rcases hsh with hk | hk
         · subst hk
           have h := hwf.1
@@ -445,7 +445,7 @@ theorem shape_has_op (c : VEnt) (hsh : Cls.admits .shape c = true) (hwf : wfV c 
           match ch, h1 with
           | [], h1 => simp at h1
           | x :: xs, h1 =>
-              by_cases hx : Cls.admits .op x = true
+              by_cases hx : Cls.accepts .op x = true
               · exact ⟨x, xs, rfl, hx⟩
               · simp [List.takeWhile_cons, hx] at h1
         · subst hk
@@ -457,28 +457,28 @@ theorem shape_has_op (c : VEnt) (hsh : Cls.admits .shape c = true) (hwf : wfV c 
           match ch, h1 with
           | [], h1 => simp at h1
           | x :: xs, h1 =>
-              by_cases hx : Cls.admits .op x = true
+              by_cases hx : Cls.accepts .op x = true
               · exact ⟨x, xs, rfl, hx⟩
               · simp [List.takeWhile_cons, hx] at h1
       obtain ⟨x, xs, hch, hx⟩ := hfirst
       subst hch
-      simp [opsOfV, childrenV, List.filter_cons, admits_op x hx]
-  | _ => simp [Cls.admits] at hsh
+      simp [opsOfV, childrenV, List.filter_cons, accepts_op x hx]
+  | _ => simp [Cls.accepts] at hsh
 
-theorem stackOps_ch (t : RT) (ch : List VEnt) (hsh : ∀ e ∈ ch, Cls.admits .shape e = true) :
+theorem stackOps_ch (t : RT) (ch : List VEnt) (hsh : ∀ e ∈ ch, Cls.accepts .shape e = true) :
     (ch.map (mapV t)).flatMap opsOfV = (ch.flatMap opsOfV).map (mapV t) := by
   induction ch with
   | nil => rfl
   | cons c cs ih =>
       simp only [List.map_cons, List.flatMap_cons, List.map_append]
-      rw [opsOfV_mapV t c (admits_shape c (hsh c (by simp))), ih (fun e he => hsh e (by simp [he]))]
+      rw [opsOfV_mapV t c (accepts_shape c (hsh c (by simp))), ih (fun e he => hsh e (by simp [he]))]
 
-theorem shapeLike_mapV (t : RT) (c : VEnt) (hsh : Cls.admits .shape c = true) (hwf : wfV c = true)
+theorem shapeLike_mapV (t : RT) (c : VEnt) (hsh : Cls.accepts .shape c = true) (hwf : wfV c = true)
     (hne : opsOfV c ≠ []) : shapeLikeCenterV (mapV t c) = (shapeLikeCenterV c).map t.pt := by
   cases c with
   | node k a ch =>
       have hk : k ≠ .op := by
-        have := admits_shape _ hsh
+        have := accepts_shape _ hsh
         intro h; apply this; simp [kindOfV, h]
       rw [mapV_node t k a ch hk]
       simp only [wfV, Bool.and_eq_true] at hwf
@@ -490,7 +490,7 @@ theorem shapeLike_mapV (t : RT) (c : VEnt) (hsh : Cls.admits .shape c = true) (h
           cases k <;> first | rfl | exact absurd rfl hs
         rw [e1, e1, shapeCenter_ch t k a _ ch hwf.2 hne]
         rfl
-  | _ => simp [Cls.admits] at hsh
+  | _ => simp [Cls.accepts] at hsh
 
 theorem filterMap_equiv (t : RT) (g : VEnt → Option V3) : ∀ (ch : List VEnt),
     (∀ c ∈ ch, g (mapV t c) = (g c).map t.pt) →
@@ -659,10 +659,10 @@ theorem wfNode_sketch (k : Kind) (hk : sketchKind k = true) (ch : List VEnt) (h 
     cases k <;> simp only [sketchKind] at hk <;> first | rfl | exact absurd hk (by decide)
   simp only [wfNode, hrow, hko, Bool.false_or, List.any_cons, List.any_nil, Bool.or_false, sketchRow] at h
   obtain ⟨h1, h2⟩ := matchSlots_many_last _ _ _ _ h
-  exact ⟨fun e he => admits_face e (h1 e he), by intro hn; rw [hn] at h2; simp at h2⟩
+  exact ⟨fun e he => accepts_face e (h1 e he), by intro hn; rw [hn] at h2; simp at h2⟩
 
 theorem wfNode_curveEdge (k : Kind) (hk : k = .oncurve ∨ k = .spline) (ch : List VEnt) (h : wfNode k ch = true) :
-    ∃ c, ch = [c] ∧ Cls.admits .curve c = true := by
+    ∃ c, ch = [c] ∧ Cls.accepts .curve c = true := by
   have h : matchSlots [one "curve" .curve] ch = true := by
     rcases hk with rfl | rfl
     · simpa [wfNode, rowsFor_oncurve] using h
@@ -703,7 +703,7 @@ theorem centerV_mapV_node2 (t : RT) (k : Kind) (a : Rat) (ch : List VEnt) (hcov 
         rw [hE] at hc
         simp only [List.map]
         rw [hE]
-        simp only [Cls.admits, Bool.or_eq_true, beq_iff_eq] at hadm
+        simp only [Cls.accepts, Bool.or_eq_true, beq_iff_eq] at hadm
         have hflat : ∀ (a' : Rat) (cc' : List VEnt), curveCenterV none (.node kc a' cc') = centerV none (.node kc a' cc') := by
           intro a' cc'
           rcases hadm with ((rfl | rfl) | rfl) | rfl <;> simp [curveCenterV, centerV, ruleOf, CRule.isCurveOf]
@@ -719,9 +719,9 @@ theorem centerV_mapV_node2 (t : RT) (k : Kind) (a : Rat) (ch : List VEnt) (hcov 
           rw [mapV_node t kc ac cc hkc] at this ⊢
           rw [hflat]
           exact this
-    | pt v => simp [Cls.admits] at hadm
-    | dir v => simp [Cls.admits] at hadm
-    | arr vs => simp [Cls.admits] at hadm
+    | pt v => simp [Cls.accepts] at hadm
+    | dir v => simp [Cls.accepts] at hadm
+    | arr vs => simp [Cls.accepts] at hadm
   · -- sketches
     have hsk : sketchKind k = true := by
       cases k <;> simp only [coveredKind2] at hcov <;>
